@@ -27,7 +27,7 @@ CLAIMED = {
         technique="static analysis: symbolic size forms of serialisers and size functions (E-STREAMFX, vlib/streamfx.py) "
                   "compared on the finite partition of the conditions they test; pairing on the clang CFG (cache pairs); "
                   "taint of the raw buffer pointer; call-graph enumeration of throw sites",
-        text="Decides: (R1) for all 55 concrete layer classes the bytes the serialiser gives the bounded cursor before/after "
+        text="Decides: (R1) for all 54 concrete layer classes the bytes the serialiser gives the bounded cursor before/after "
              "the inner layer never exceed header_size()/trailer_size(), in every cell of the condition partition (option "
              "kinds incl. all 256 IP option octets, message types, flags) - found and fixed the TCP and IP option-size "
              "defects; (R2) cached option/tag sizes follow their lists under every add/remove; (R3) the raw output buffer "
